@@ -458,6 +458,16 @@ fn pieces(data: &[u8], pattern: &[usize]) -> Vec<Vec<u8>> {
 
 fn segmentation_slice(ctx: &Ctx, plain: &LiveServer<()>, cn: &Cn) -> serde_json::Value {
     let patterns: Vec<Vec<usize>> = vec![vec![96], vec![8], vec![4], vec![3, 2, 3], vec![1, 7], vec![7, 1], vec![1], vec![5], vec![12], vec![8, 3, 13], vec![0]];
+    // thorough: every way of cutting the first two records (16 bytes) into up to three pieces, the rest whole
+    let mut patterns = patterns;
+    if ctx.tier == Tier::Thorough {
+        for a in 1..16usize {
+            patterns.push(vec![a, 16 - a, 80]);
+            for b in 1..(16 - a) {
+                patterns.push(vec![a, b, 16 - a - b, 80]);
+            }
+        }
+    }
     let id = vh::tls::self_signed();
     let tls_srv = LiveServer::start(api(), (), ServerOpts { tls: Some(id.server_config()), ..Default::default() }).unwrap_or_else(|e| machinery_failure(&e));
     let ccfg = id.client_config();
